@@ -224,10 +224,16 @@ class Model:
     def m_link(self, op):
         a, b = op["a"], op["b"]
         if op.get("dontdup"):
+            # the scan goes through a's links in order and stops at the first
+            # joining one; a link it cannot ask (no `other`, fewer than two
+            # ends) met before that makes the call raise
             joining = []
             for l in self.objs[a]["links"]:
-                if self.objs[l]["k"] != "e":
-                    return Raises()
+                usable = self.objs[l]["k"] == "e" and len(self.objs[l]["ends"]) >= 2
+                if not usable:
+                    if not joining:
+                        return Raises()
+                    continue
                 if self.other(l, a) == b:
                     joining.append(l)
             if joining:
